@@ -2704,6 +2704,9 @@ func (col *DatabaseCollectionWithUser) documentUpdateFunc(
 	createNewRevIDSkipped bool,
 	err error) {
 
+	// sequences set aside by earlier attempts of this update must survive an early return, so that the caller can release them
+	retUnusedSequences = unusedSequences
+
 	err = validateExistingDoc(doc, allowImport, docExists)
 	if err != nil {
 		return
